@@ -23,6 +23,7 @@
 #include <time.h>
 #include "vs_api.h"
 #include <dlfcn.h>
+#include <sys/mman.h>
 
 enum { VSK_LOAD = 0, VSK_STORE = 1, VSK_RMW = 2, VSK_FENCE = 3, VSK_YIELD = 4, VSK_SPAWN = 5,
        VSK_FWAIT = 6, VSK_FWAKE = 7, VSK_WORK = 8, VSK_PAUSE = 9, VSK_BLOCK = 10 };
@@ -75,9 +76,9 @@ static void (*h_deadlock)(const char*) = nullptr; static void (*h_fixpoint)(cons
 static uint64_t vtime = 1000000; static unsigned long long vclock = 1000000000ull;
 
 struct TraceE { int t, kind; uintptr_t pc; const void* a; uint64_t we; };
-static TraceE* trace_ring = nullptr; static uint64_t trace_n = 0; static const unsigned TRACE_SZ = 400;
+static TraceE* trace_ring = nullptr; static uint64_t trace_n = 0; static const unsigned TRACE_SZ = 400; static bool trace_dump_on = false;
 static void trace_dump() {
-    if (!trace_ring) return;
+    if (!trace_ring || !trace_dump_on) return;
     uint64_t from = trace_n > TRACE_SZ ? trace_n - TRACE_SZ : 0;
     for (uint64_t i = from; i < trace_n; i++) { TraceE& e = trace_ring[i % TRACE_SZ]; Dl_info di; const char* sn = "?"; unsigned long off = 0;
         if (e.pc && dladdr((void*)e.pc, &di) && di.dli_sname) { sn = di.dli_sname; off = e.pc - (uintptr_t)di.dli_saddr; }
@@ -442,44 +443,45 @@ extern "C" { uint64_t (*onetbb_verif_time_hook)() = nullptr; }
 // ---------------------------------------------------------------------------------------------
 // begin / end
 // ---------------------------------------------------------------------------------------------
-static long kv_long(const char* line, const char* key, long def) {
-    std::string k = std::string(" ") + key + "="; std::string l = std::string(" ") + line;
-    size_t p = l.find(k); if (p == std::string::npos) return def;
-    return atol(l.c_str() + p + k.size());
+// allocation-free parsing of the schedule descriptor: the heap layout of a case must not depend on its sched line
+static const char* kv_find(const char* line, const char* key) {
+    size_t kl = strlen(key);
+    for (const char* p = line; *p; p++) if ((p == line || p[-1] == ' ') && !strncmp(p, key, kl) && p[kl] == '=') return p + kl + 1;
+    return nullptr;
 }
-static std::string kv_str(const char* line, const char* key, const char* def) {
-    std::string k = std::string(" ") + key + "="; std::string l = std::string(" ") + line;
-    size_t p = l.find(k); if (p == std::string::npos) return def;
-    size_t e = l.find(' ', p + 1); return l.substr(p + k.size(), e == std::string::npos ? std::string::npos : e - p - k.size());
+static long kv_long(const char* line, const char* key, long def) { const char* v = kv_find(line, key); return v ? atol(v) : def; }
+static bool kv_is(const char* line, const char* key, const char* val, bool def) {
+    const char* v = kv_find(line, key); if (!v) return def; size_t n = strlen(val); return !strncmp(v, val, n) && (v[n] == 0 || v[n] == ' ');
 }
 static void on_alarm(int) { static const char m[] = "R INCONCLUSIVE WATCHDOG wall-clock\n"; ssize_t w = write(1, m, sizeof m - 1); (void)w; _exit(0); }
 
 extern "C" void vs_begin(const char* line) {
-    std::string st = kv_str(line, "strat", "walk");
-    strat = st == "pct" ? S_PCT : st == "pos" ? S_POS : st == "tape" ? S_TAPE : S_WALK;
+    strat = kv_is(line, "strat", "pct", false) ? S_PCT : kv_is(line, "strat", "pos", false) ? S_POS : kv_is(line, "strat", "tape", false) ? S_TAPE : S_WALK;
     walk_p = (unsigned)kv_long(line, "p", 8); if (walk_p < 1) walk_p = 1;
     pct_d = (int)kv_long(line, "d", 2); if (pct_d > 8) pct_d = 8;
     est_steps = kv_long(line, "est", 3000); if (est_steps < 10) est_steps = 10;
     uint64_t seed = (uint64_t)kv_long(line, "seed", 1);
     rng = seed * 2654435761u + 88172645463325252ull; rng2 = seed * 0x9E3779B97F4A7C15ull + 12345; if (!rng) rng = 1; if (!rng2) rng2 = 1;
     for (int i = 0; i < 8; i++) { rnd(); rnd2(); }
-    vs_tso_on = kv_str(line, "mem", "sc") == "tso" ? 1 : 0;
+    vs_tso_on = kv_is(line, "mem", "tso", false) ? 1 : 0;
     tso_window = (int)kv_long(line, "w", 4); tso_flushp = (unsigned)kv_long(line, "fp", 16);
     step_budget = kv_long(line, "budget", 2000000); fix_threshold = kv_long(line, "fix", 20000);
     record = kv_long(line, "record", 0) != 0;
-    if (kv_long(line, "trace", 0)) trace_ring = new TraceE[TRACE_SZ];
-    std::string sl = kv_str(line, "stall", "");   // cls:idx:dur[,cls:idx:dur...]
+    // the trace ring always exists (mmap, not heap) and is always filled; it is dumped on a non-OK verdict when asked for
+    trace_ring = (TraceE*)mmap(nullptr, sizeof(TraceE) * TRACE_SZ, PROT_READ | PROT_WRITE, MAP_PRIVATE | MAP_ANONYMOUS, -1, 0);
+    if (trace_ring == MAP_FAILED) trace_ring = nullptr;
+    trace_dump_on = kv_long(line, "trace", 0) != 0 || getenv("VS_TRACE_DUMP") != nullptr;
     nstall = 0;
-    for (size_t p = 0; p < sl.size() && nstall < 4;) {
-        size_t e = sl.find(',', p); std::string it = sl.substr(p, e == std::string::npos ? std::string::npos : e - p);
-        char cn[32]; long idx, dur; if (sscanf(it.c_str(), "%31[^:]:%ld:%ld", cn, &idx, &dur) == 3) for (int c = 0; c < E_NCLS; c++) if (!strcmp(cn, ev_names[c])) stalls[nstall++] = { c, idx, dur };
-        if (e == std::string::npos) break; p = e + 1;
+    if (const char* sl = kv_find(line, "stall")) {   // cls:idx:dur[,cls:idx:dur...]
+        while (*sl && *sl != ' ' && nstall < 4) {
+            char cn[32]; long idx, dur; int used = 0;
+            if (sscanf(sl, "%31[^:]:%ld:%ld%n", cn, &idx, &dur, &used) < 3) break;
+            for (int c = 0; c < E_NCLS; c++) if (!strcmp(cn, ev_names[c])) stalls[nstall++] = { c, idx, dur };
+            sl += used; if (*sl == ',') sl++;
+        }
     }
-    std::string tp = kv_str(line, "tape", "");    // id*count,id*count
-    for (size_t p = 0; p < tp.size();) {
-        size_t e = tp.find(',', p); std::string it = tp.substr(p, e == std::string::npos ? std::string::npos : e - p);
-        int id; long cnt = 1; if (sscanf(it.c_str(), "%d*%ld", &id, &cnt) >= 1) for (long i = 0; i < cnt; i++) tape.push_back(id);
-        if (e == std::string::npos) break; p = e + 1;
+    if (const char* tp = kv_find(line, "tape")) {    // id*count,id*count
+        while (*tp && *tp != ' ') { int id; long cnt = 1; int used = 0; if (sscanf(tp, "%d*%ld%n", &id, &cnt, &used) < 2) break; for (long i = 0; i < cnt; i++) tape.push_back(id); tp += used; if (*tp == ',') tp++; }
     }
     for (int i = 0; i < pct_d - 1 && i < 8; i++) pct_change[i] = (long)(rnd() % (uint64_t)est_steps);
     signal(SIGALRM, on_alarm); alarm((unsigned)kv_long(line, "wall", 20));
